@@ -6,6 +6,7 @@ package main
 import (
 	"fmt"
 	"math/rand"
+	"os"
 	"sort"
 	"strings"
 	"time"
@@ -248,6 +249,16 @@ func judgeJoin(c *core.Ctx, j *mjJob, r result) error {
 	}
 	want := nestedLoop(s)
 	spec := specPairs(s)
+	switch os.Getenv("C10_CORRUPT") { // self-test of the binding, see README of this check in main.go
+	case "spec":
+		if j.Task.ID == 7 && len(spec) > 0 {
+			spec = spec[1:]
+		}
+	case "real":
+		if j.Task.ID == 7 && len(got) > 0 {
+			got = got[1:]
+		}
+	}
 	c.Eval(s.caseKey(), len(got) > 0)
 	if len(s.Taint) > 0 {
 		c.Add("join_cases_on_known_defect_path", 1)
@@ -263,12 +274,33 @@ func judgeJoin(c *core.Ctx, j *mjJob, r result) error {
 		}
 		return nil
 	}
-	sig := fmt.Sprintf("join:unpredicted:%s:%s/%s", s.Kind, s.LD, s.RD)
+	diff := "wrong-pairs"
+	switch {
+	case subset(got, want):
+		diff = "missing-pairs"
+	case subset(want, got):
+		diff = "extra-pairs"
+	}
+	sig := fmt.Sprintf("join:unpredicted:%s:%s", s.Kind, diff)
 	if len(s.Taint) > 0 && fmt.Sprint(got) == fmt.Sprint(spec) {
 		sig = "join:desc-merge-with-nulls-sorted-last"
 	}
 	c.Violate(sig, fmt.Sprintf("%s emits pairs %v (left-right row numbers, 0 = none) but a nested-loop join emits %v", label, got, want), witness)
 	return nil
+}
+
+func subset(a, b []string) bool {
+	m := map[string]int{}
+	for _, x := range b {
+		m[x]++
+	}
+	for _, x := range a {
+		if m[x] == 0 {
+			return false
+		}
+		m[x]--
+	}
+	return true
 }
 
 // ---------------------------------------------------------------- precheck
